@@ -220,6 +220,43 @@ harnesses! {
     fn lemma_spec_honest_agreement [unwind = 120] { honest_agreement_case(false); }
     fn lemma_spec_honest_agreement_explicit_idu [unwind = 120] { honest_agreement_case(true); }
 
+    /// R1a — credentials round trip of the reference: what registration stores, masked by the server and unmasked by the
+    /// client with the same randomized password, recovers the same client key, export key and the setup's public key
+    fn lemma_spec_credentials_roundtrip [unwind = 60] {
+        let rpwd_out = any_bytes::<8>(); // OPRF output (equal on both runs: blinding cancels, see R1)
+        let s_sk = any_u8();
+        assume(s_sk >= 1 && s_sk <= 240);
+        let env_nonce = any_bytes::<32>();
+        let masking_nonce = any_bytes::<32>();
+        let server_pk = spec::ke_public(s_sk);
+        let rpwd = spec::randomized_pwd(&rpwd_out, &rpwd_out);
+        let mk = spec::masking_key(&rpwd);
+        let (_, cpk, export) = spec::envelope_keys(&rpwd, &env_nonce);
+        let e = spec::envelope(&rpwd, &env_nonce, &server_pk, &server_pk, &cpk);
+        let masked = spec::mask(&mk, &masking_nonce, &server_pk, &env_nonce, &e.auth_tag);
+        match ss::recover_credentials(&rpwd, &masking_nonce, &masked, None, None) {
+            ss::Recovered::Ok { server_pk: spk, client_sk: _, client_pk, export_key } => {
+                check!(eq_bytes(&spk, &server_pk), "client recovers the setup's public key");
+                check!(eq_bytes(&export_key, &export), "login export key == registration export key");
+                check!(eq_bytes(&client_pk, &cpk), "client recovers its registered key pair");
+                cover!(true, "agreement");
+            }
+            ss::Recovered::Invalid => { check!(false, "honest credential recovery succeeds"); }
+        }
+    }
+
+    /// R1b — key-exchange agreement of the reference: with consistent key pairs and the same preamble both sides derive the
+    /// same session key and accept each other's MAC (Diffie-Hellman symmetry in the model group + same key schedule)
+    fn lemma_spec_ke_agreement [unwind = 60] {
+        let (s_sk, c_sk, e_s, e_c) = (any_u8(), any_u8(), any_u8(), any_u8());
+        assume(s_sk >= 1 && s_sk <= 240 && c_sk >= 1 && c_sk <= 240 && e_s >= 1 && e_s <= 240 && e_c >= 1 && e_c <= 240);
+        let ph = any_bytes::<8>(); // Hash(preamble), equal on both sides when both hold the same transcript
+        let ks = spec::derive_keys(&spec::ke_dh(e_s, &spec::ke_public(e_c)), &spec::ke_dh(s_sk, &spec::ke_public(e_c)), &spec::ke_dh(e_s, &spec::ke_public(c_sk)), &ph);
+        let kc = spec::derive_keys(&spec::ke_dh(e_c, &spec::ke_public(e_s)), &spec::ke_dh(e_c, &spec::ke_public(s_sk)), &spec::ke_dh(c_sk, &spec::ke_public(e_s)), &ph);
+        check!(eq_bytes(&ks.session_key, &kc.session_key) && eq_bytes(&ks.km2, &kc.km2) && eq_bytes(&ks.km3, &kc.km3), "both sides derive the same session key and MAC keys");
+        cover!(true, "agreement");
+    }
+
     /// R2 — injectivity of the length-prefixed identity/context encoding inside the preamble: two (context, id_u, id_s)
     /// triples of total length <= 6 with the same concatenation "I2OSP(len,2)||context||I2OSP(len,2)||id_u||..." are equal
     fn lemma_spec_prefix_injective [unwind = 40] {
